@@ -513,6 +513,11 @@ Lemma delivered_slots_match_abi : forall k,
   map slot_ty (delivered_slots k) = abi_sig k /\ flatten_all (delivered_slots k) = delivered_fields k.
 Proof. destruct k; vm_compute; split; reflexivity. Qed.
 
+(** every argument eth_txable.go packs sits at the position of the ABI input that is NAMED for it
+    (a deadline packed where message_id is expected would have the right type) *)
+Lemma delivered_slots_are_the_named_inputs : forall k, delivered_slots k = abi_named_slots k.
+Proof. destruct k; vm_compute; reflexivity. Qed.
+
 (** the signing pre-image of the three kinds whose scheme has the deployment id is the delivered
     argument list with the id inserted -- same order, same tuple structure *)
 Lemma signed_is_delivered_plus_id : forall k, In k [KLogicCall; KDeploy; KBatch] ->
